@@ -137,7 +137,8 @@ class World:
     def cls(self, name):
         if name not in self.classes:
             # distinct classes; with case["same_name"] they all carry the same __name__ (identity, not the name, is what a waiter waits for)
-            self.classes[name] = type("Same" if self.case.get("same_name") else name, (AbstractSignal,), {})
+            base = (self.case.get("derive") or {}).get(name)       # a signal class deriving from another signal class (dispatch is by exact class)
+            self.classes[name] = type("Same" if self.case.get("same_name") else name, (self.cls(base) if base else AbstractSignal,), {})
         return self.classes[name]
     def act(self, a, me=None):
         xlog(("api",) + tuple(a))
